@@ -968,9 +968,8 @@ class Fetcher:
             tp_state = assignment.state_value(tp)
             if not tp_state.awaiting_reset:
                 continue
-            needs_reset.append(tp)
-
             strategy = tp_state.reset_strategy
+            needs_reset.append((tp, strategy))
             assert strategy is not None
             log.debug(
                 "Resetting offset for partition %s using %s strategy.",
@@ -992,11 +991,14 @@ class Fetcher:
         except asyncio.CancelledError:
             return needs_wakeup
 
-        for tp in needs_reset:
+        for tp, strategy in needs_reset:
             offset = offsets[tp][0]
             tp_state = assignment.state_value(tp)
-            # There could have been some `seek` call while fetching offset
-            if tp_state.awaiting_reset:
+            # There could have been some `seek` call while fetching offset. It
+            # can also be a `seek_to_beginning`/`seek_to_end` that asks for
+            # another strategy than the one we sent: that answer is stale, the
+            # partition stays in reset state and will be queried again.
+            if tp_state.awaiting_reset and tp_state.reset_strategy == strategy:
                 tp_state.reset_to(offset)
         return needs_wakeup
 
